@@ -49,7 +49,9 @@ def corpus() -> list[tuple[str, str]]:
 
 ATOMS = ["alpha", "beta", "GAMMA", "delta_4", "x", "y9", "Zed"]
 STRS = ['"two words"', '"1.0"', '"a, b"', '"tr\\"icky"', '"émigré ☃"', '"semi;colon"']
-NUMS = ["0", "1", "42", "-7", "3.5", "1e3"]
+# includes the values Python considers EQUAL across types (True == 1 == 1.0, False == 0 == 0.0 == -0.0): a value-keyed
+# cache or dict confuses them, and only a history that contained the other spelling first shows it
+NUMS = ["0", "1", "42", "-7", "3.5", "1e3", "1.0", "0.0", "-0.0", "1e0", "true", "false", "2", "2.0"]
 
 
 def gen_doc(tape: Tape, marker: str, style: str = "canonical", size: int = 0) -> str:
@@ -62,7 +64,8 @@ def gen_doc(tape: Tape, marker: str, style: str = "canonical", size: int = 0) ->
         lines.append(f"==={name}===")
     lines += ["META:", "  TYPE::TEST", '  VERSION::"1.0"']
     if tape.choose(2, "doc.status"):
-        lines.append("  STATUS::" + tape.pick(["DRAFT", "ACTIVE", "DEPRECATED"], "doc.st"))
+        # full names, and abbreviations that are a proper prefix of one or of SEVERAL members of META's STATUS enum
+        lines.append("  STATUS::" + tape.pick(["DRAFT", "ACTIVE", "DEPRECATED", "D", "DE", "A", "draft", "DR"], "doc.st"))
     lines.append(f"MARK::{marker}")
     nf = 1 + tape.choose(5, "doc.nf")
     for i in range(nf):
